@@ -330,12 +330,20 @@ class Tr:
         self.err(s, f'statement {type(s).__name__}')
 
 def translate(fn: ast.FunctionDef, lean_name: str, where: str, ptypes: dict[str, str], ret: str,
-              local_funcs=None, body=None) -> tuple[str, list[str]]:
+              local_funcs=None, body=None, self_order=None) -> tuple[str, list[str]]:
+    """`self_order`: the attributes of `self` the Lean definition takes, in this order, whether or not the
+    current body reads them (the hand-written model calls the definition with exactly these arguments, so an
+    edit that adds or drops a read changes the generated *body*, not the signature)"""
     params = [(a.arg, ptypes[a.arg]) for a in fn.args.args if a.arg != 'self']
     if fn.args.vararg or fn.args.kwarg or fn.args.kwonlyargs or fn.args.defaults:
         raise ExtractError(f'{where}: unexpected parameter list')
     tr = Tr(where, params, local_funcs)
     text = tr.stmts(body if body is not None else fn.body, ret)
+    if self_order is not None:
+        extra = [a for a in tr.used_self if a not in self_order]
+        if extra:
+            raise ExtractError(f'{where}: reads self.{extra[0]}, which the model does not supply — outside the translator grammar')
+        tr.used_self = list(self_order)
     binders = ''.join(f' ({a} : {LEAN_TYPE["Rat" if a in ("re", "im") else SELF_TYPES[a]]})' for a in tr.used_self)
     binders += ''.join(f' ({p} : {LEAN_TYPE[t]})' for p, t in params)
     return f'def {lean_name}{binders} : {LEAN_TYPE[ret]} :=\n{text}\n', tr.used_self
@@ -488,25 +496,26 @@ def _gen_fmt_tables(src) -> str:
     def prop(cls, name):
         fn = find_func(cls.body, name)
         return fn
-    L.append(translate(prop(fp, 'is_zero'), 'fp_is_zero', 'FloatPrecision.is_zero', PT, 'Bool')[0])
-    L.append(translate(prop(fp, 'is_inf'), 'fp_is_inf', 'FloatPrecision.is_inf', PT, 'Bool')[0])
-    L.append(translate(prop(fp, 'mantissa'), 'fp_mantissa', 'FloatPrecision.mantissa', PT, 'Int')[0])
-    L.append(translate(prop(f3, 'exponent3'), 'f3_exponent3', 'Float3.exponent3', PT, 'Int')[0])
-    L.append(translate(prop(f3, 'mantissa3'), 'f3_mantissa3', 'Float3.mantissa3', PT, 'Rat')[0])
+    L.append(translate(prop(fp, 'is_zero'), 'fp_is_zero', 'FloatPrecision.is_zero', PT, 'Bool', self_order=['value', 'exponent', 'min_exp'])[0])
+    L.append(translate(prop(fp, 'is_inf'), 'fp_is_inf', 'FloatPrecision.is_inf', PT, 'Bool', self_order=['value', 'exponent', 'max_exp'])[0])
+    L.append(translate(prop(fp, 'mantissa'), 'fp_mantissa', 'FloatPrecision.mantissa', PT, 'Int', self_order=['value', 'exponent'])[0])
+    L.append(translate(prop(f3, 'exponent3'), 'f3_exponent3', 'Float3.exponent3', PT, 'Int', self_order=['precision', 'exponent'])[0])
+    L.append(translate(prop(f3, 'mantissa3'), 'f3_mantissa3', 'Float3.mantissa3', PT, 'Rat', self_order=['mantissa', 'exponent', 'exponent3'])[0])
     v3 = prop(sf, 'value3')
     for fld in ('min_exp', 'max_exp'):
         L.append(translate(v3, f'sf_value3_{fld}', 'ScientificFloat.value3', PT, 'Int',
-                           body=_replace_returns(v3.body, fld, fpd[fld]))[0])
-    L.append(translate(prop(sf, 'exp_prefix'), 'sf_exp_prefix', 'ScientificFloat.exp_prefix', PT, 'Str')[0])
+                           body=_replace_returns(v3.body, fld, fpd[fld]), self_order=['use_exp_prefix', 'exp_prefixes'])[0])
+    L.append(translate(prop(sf, 'exp_prefix'), 'sf_exp_prefix', 'ScientificFloat.exp_prefix', PT, 'Str', self_order=['use_exp_prefix', 'exp_prefixes'])[0])
     ee = prop(sf, 'exp_extension')
     if not (ee.body and isinstance(ee.body[0], ast.FunctionDef) and ee.body[0].name == 'rebase_exp'):
         raise ExtractError('ScientificFloat.exp_extension: nested rebase_exp not found')
-    rb_text, rb_self = translate(ee.body[0], 'sf_rebase_exp', 'ScientificFloat.exp_extension.rebase_exp', PT, 'Int')
+    rb_text, rb_self = translate(ee.body[0], 'sf_rebase_exp', 'ScientificFloat.exp_extension.rebase_exp', PT, 'Int', self_order=['use_exp_prefix', 'exp_prefixes'])
     L.append(rb_text)
     L.append(translate(ee, 'sf_exp_extension', 'ScientificFloat.exp_extension', PT, 'Str',
-                       local_funcs={'rebase_exp': ('sf_rebase_exp', rb_self, ['Int'], 'Int')}, body=ee.body[1:])[0])
-    L.append(translate(prop(sc, 'real_sign'), 'sc_real_sign', 'ScientificComplex.real_sign', PT, 'Str')[0])
-    L.append(translate(prop(sc, 'imag_sign'), 'sc_imag_sign', 'ScientificComplex.imag_sign', PT, 'Str')[0])
+                       local_funcs={'rebase_exp': ('sf_rebase_exp', rb_self, ['Int'], 'Int')}, body=ee.body[1:],
+                       self_order=['use_exp_prefix', 'exp_prefixes'])[0])
+    L.append(translate(prop(sc, 'real_sign'), 'sc_real_sign', 'ScientificComplex.real_sign', PT, 'Str', self_order=['re', 'compact'])[0])
+    L.append(translate(prop(sc, 'imag_sign'), 'sc_imag_sign', 'ScientificComplex.imag_sign', PT, 'Str', self_order=['im', 'compact'])[0])
     # ---- hand-modelled functions: shape guard + constants
     fns = {}
     for key, shape in SHAPES.items():
@@ -645,7 +654,8 @@ def _gen_annot_tables(src) -> str:
          'structure Factory where', '  method : String', '  solutionMethod : String', '  labelClass : String',
          '  textKw : String', '  color : String', '  hasReverse : Bool', 'deriving Repr, DecidableEq', '',
          'structure Ctor where', '  name : String', '  params : List (String × String)', '  adapterCls : String',
-         '  solutionCls : String', '  solutionArgs : List String', '  forwarded : List String', 'deriving Repr, DecidableEq', '']
+         '  solutionCls : String', '  solutionArgs : List String', '  solutionLits : List (String × Bool)',
+         '  forwarded : List String', 'deriving Repr, DecidableEq', '']
     # ---- adapters
     adapters = []
     sign_srcs = set()
@@ -751,7 +761,7 @@ def _gen_annot_tables(src) -> str:
         if len(ad) != 1: raise ExtractError(f'{where}: expected exactly one adapter construction')
         ad = ad[0]
         kw = _kwargs(ad)
-        sol_cls, sol_args = '', []
+        sol_cls, sol_args, sol_lits = '', [], []
         if 'solution' in kw:
             sc = kw.pop('solution')
             if not (isinstance(sc, ast.Call) and isinstance(sc.func, ast.Name)): raise ExtractError(f'{where}: solution= is not a constructor call')
@@ -760,19 +770,25 @@ def _gen_annot_tables(src) -> str:
             if skw.pop('circuit', None) != 'circuit_translator(schematic)':
                 raise ExtractError(f'{where}: the circuit is not circuit_translator(schematic)')
             for k, v in skw.items():
-                if v != k or k not in names: raise ExtractError(f'{where}: solution argument {k}={v} is not a forwarded parameter')
-                sol_args.append(k)
+                if v == k and k in names:
+                    sol_args.append(k)
+                elif v in ('True', 'False'):
+                    sol_lits.append((k, v))
+                else:
+                    raise ExtractError(f'{where}: solution argument {k}={v} is neither a forwarded parameter nor a boolean literal')
         fwd = []
         for k, v in kw.items():
             if ast.unparse(v) != k or k not in names: raise ExtractError(f'{where}: adapter argument {k}={ast.unparse(v)} is not a forwarded parameter')
             fwd.append(k)
         ctors.append(dict(name=f.name, params=[(n, dflt.get(n, '')) for n in names[1:]], adapter=ad.func.id, sol=sol_cls,
-                          sol_args=sol_args, fwd=fwd))
+                          sol_args=sol_args, sol_lits=sol_lits, fwd=fwd))
     L.append('def ctors : List Ctor := [')
     for c in ctors:
         ps = '[' + ', '.join(f'({extract.lean_str(a)}, {extract.lean_str(b)})' for a, b in c['params']) + ']'
         L.append(f'  {{ name := "{c["name"]}", params := {ps}, adapterCls := "{c["adapter"]}", solutionCls := "{c["sol"]}", '
-                 f'solutionArgs := {_lean_strs(c["sol_args"])}, forwarded := {_lean_strs(c["fwd"])} }},')
+                 f'solutionArgs := {_lean_strs(c["sol_args"])}, solutionLits := [' +
+                 ', '.join(f'({extract.lean_str(a)}, {b.lower()})' for a, b in c['sol_lits']) +
+                 f'], forwarded := {_lean_strs(c["fwd"])} }},')
     L[-1] = L[-1].rstrip(','); L.append(']')
     # ---- schematic.py: the declarative solution section
     sol_tbl = None
